@@ -108,7 +108,7 @@ Lemma table_facts :
 Proof. vm_compute. repeat split; reflexivity. Qed.
 Lemma table_self_lookup m : In m signers_table ->
   by_name (m_name m) = Some m /\ (forall a, In a (m_aliases m) -> by_name a = Some m) /\ (m_magic m <> 0 -> by_magic (m_magic m) = Some m) /\
-  server_route (m_name m) = Chosen m.
+  server_route (m_name m) = (if token_sign_refuses_verify_only (m_has_sign m) then Refused E_NO_SIGNER else Chosen m).
 Proof.
   intros H. unfold signers_table in H. cbn [In] in H.
   repeat (destruct H as [<-|H]; [split; [reflexivity|split; [cbn [m_aliases In]; intros a Ha; repeat (destruct Ha as [<-|Ha]; [reflexivity|]); contradiction|split; [intros N; first [reflexivity|exfalso; apply N; reflexivity]|reflexivity]]]|]).
@@ -128,6 +128,13 @@ Proof.
   end.
   all: match goal with E : by_filename ?n = Some _ |- _ => rewrite filename_rules in E; unfold ps_module, dmg_module in E;
          repeat match type of E with (if ?c then _ else _) = _ => destruct c end; try discriminate; apply by_name_in_sound in E as [E _]; exact E end.
+Qed.
+Lemma sign_route_can_sign sigtype name o det m : sign_route sigtype name o det = Chosen m -> In m signers_table /\ token_sign_refuses_verify_only (m_has_sign m) = false.
+Proof.
+  unfold sign_route. destruct (by_file sigtype name o det) as [m'|e] eqn:E; [|discriminate].
+  destruct (token_sign_refuses_verify_only (m_has_sign m')) eqn:Ev; [discriminate|].
+  destruct (signers_byfile_stdin name && token_sign_refuses_stdin (m_stdin m')); [discriminate|].
+  intros H. injection H as <-. split; [exact (by_file_in_table _ _ _ _ _ E)|exact Ev].
 Qed.
 
 (* ---- file names *)
